@@ -21,7 +21,7 @@ def alloc_jobs(tier):
         if tier == "quick" and n != 3:
             continue   # 32-bit division against 64-bit products: 2-12 min each; the helper general_composite_rect uses is in both tiers
         js.append(Job("alloc.%s" % fn, "C04/alloc.c", defines={"VC_FN": n}, kind="proof", functions=[fn],
-                      assumptions=[A_DIV] if n != 3 else [A_C], timeout=3600, min_props=4,
+                      assumptions=[A_DIV] if n != 3 else [A_C], timeout=7200 if n == 2 else 3600, min_props=4,
                       domain="every a, b, c in 2^32, allocator failing or not: non-NULL => requested size == a*b(*c | +c) in 128-bit "
                              "arithmetic, fits int32, first and last byte of the block writable; NULL => allocator failed or one more row would exceed INT32_MAX"))
     if tier != "quick":
@@ -78,7 +78,7 @@ def general_jobs(tier):
                           assumptions=["general_composite_rect: height 1 (the row loop body runs once; the buffers are carved before the loop)",
                                        "general_composite_rect: memset replaced under CBMC by a stub writing the first and last byte of the range (pointer checks); the real memset runs in the native replay",
                                        "general_composite_rect: CBMC evaluates pointer alignment on the offset inside an object (objects are 16-byte aligned in the model): heap misalignment is an explicit input 0..15, the stack buffer's claim is the arithmetic obligation stack_buffer_used_only_if_worst_case_carving_fits + native ASan replay"],
-                          timeout=3600, min_props=10,
+                          timeout=5400, min_props=10,
                           domain="pixel size %d, widths %s (the two width ranges overlap and cover int32), every operator/flag word, heap block at any "
                                  "misalignment 0..15, allocator failing or not: three buffers 16-byte aligned, disjoint, inside stack buffer / allocation "
                                  "(first and last byte of each written by the iterator stubs); stack buffer only if 3*width*Bpp+45 fits; block freed exactly once"
